@@ -250,6 +250,20 @@ def run_case(case, ctx):
                     mms.append(Mismatch("reload", f"reloaded state point {got!r} hashes to another id than {fj.id}"))
             except Exception as e:
                 mms.append(Mismatch("reload", f"fresh open by id of {sp!r} raised {type(e).__name__}: {e}"))
+            # the other routes by which a new session learns the state point of an id: the read-only view of a
+            # handle that has not loaded anything, iteration, the project-wide validation
+            try:
+                cold = signac.Project(project.path)
+                got = dict(cold.open_job(id=want).cached_statepoint)
+                if oracle.job_id(got) != want:
+                    mms.append(Mismatch("reload", f"cached_statepoint of a cold handle on {sp!r} is {got!r}, which hashes to another id than {want}"))
+                it = signac.Project(project.path)
+                views = [dict(j.cached_statepoint) for j in it if j.id == want]
+                if len(views) != 1 or oracle.job_id(views[0]) != want:
+                    mms.append(Mismatch("reload", f"iteration in a new session yields {views!r} for the job {sp!r} ({want})"))
+                signac.Project(project.path).check()
+            except Exception as e:
+                mms.append(Mismatch("reload", f"a new session reading the state point of {sp!r} (cold cached_statepoint / iteration / check()) raised {type(e).__name__}: {e}"))
             job.remove()
         # aliasing through synced collections: a state point assembled from another job's (synced) state
         # point values must not stay tied to that job
